@@ -131,6 +131,6 @@ func checkC03(c caseC03, rec *ev.Rec) *ev.Failure {
 func TestC03(t *testing.T) {
 	rec := ev.New("C03", "exploration")
 	rec.Rule = "valid LZMA2-only .xz streams from (a) a specification-driven generator: operation lists (literal, match, rep0-3, short rep; lengths biased to 2/273/codec boundaries; distances biased to 1, reps, the window edge), all seven chunk kinds in legal order incl. mid-stream state/property/dictionary resets and raw chunks, container layouts (4 check types, size fields, extra header padding, empty and zero-block streams), (b) liblzma with drawn options (presets, mf hc3..bt4, modes, nice_len, flushes, MT encoder), (c) a frozen xz-utils corpus; x ReaderConfig.DictCap in {4096, default, drawn}; oracle = constructed plaintext (= reference decoder = liblzma); non-trivial = non-empty content and at least one match/rep class, >= 2 chunks or a layout feature; distinct = hash of the stream bytes"
-	rec.Assumptions = []string{"declared dictionary <= 1 MiB (codes <= 8) in generated streams", "a disagreement between reference decoder, liblzma and the constructed plaintext is a harness error (inconclusive), never reported against the library"}
+	rec.Assumptions = []string{"declared dictionary <= 1 MiB (codes <= 8) in generated streams of the quick tier; the thorough tier adds codes up to 28 (64 MiB)", "a disagreement between reference decoder, liblzma and the constructed plaintext is a harness error (inconclusive), never reported against the library"}
 	drive(t, rec, drawC03, checkC03)
 }
